@@ -39,4 +39,12 @@
 static void verif_load_inputs(void);
 #endif
 
+
+#if defined(VERIF_NATIVE)
+/* contract clauses are for goto-instrument; a native replay checks the same predicates through VERIF_ASSERT */
+#define __CPROVER_requires(...)
+#define __CPROVER_ensures(...)
+#define __CPROVER_assigns(...)
+#endif
+
 #endif
